@@ -49,9 +49,9 @@ Proof.
   - rewrite chan_at_set_other by assumption. apply soc_refl.
 Qed.
 
-Lemma rm_sender_chan s r c c' : same_or_closed (chan_at s c') (chan_at (rm_sender s r c) c').
+Lemma rm_sender_chan s r c' : same_or_closed (chan_at s c') (chan_at (rm_sender s r) c').
 Proof.
-  unfold rm_sender. destruct (Nat.eq_dec c' c) as [->|Hne].
+  unfold rm_sender. destruct (chan_of_key (senders s) (KRule r)) as [c|]; [|apply soc_refl]. destruct (Nat.eq_dec c' c) as [->|Hne].
   - destruct (Nat.lt_ge_cases c (length (chans s))) as [Hlt|Hge].
     + rewrite chan_at_set_same by assumption. apply soc_close.
     + unfold chan_at, set_chan. cbn. rewrite !nth_overflow; rewrite ?length_upd; try lia. apply soc_refl.
@@ -175,6 +175,49 @@ Proof. intros Ha Hpc r c (a' & Ha' & _ & Hp). rewrite Ha in Ha'. inversion Ha'; 
 Lemma no_a2_none s sid : lookup (adds s) sid = None -> forall r c, ~ a2 s sid r c.
 Proof. intros Ha r c (a' & Ha' & _). congruence. Qed.
 
+
+(* ---- a registered channel that is closed has no receiver and belongs to no subscription ---- *)
+Definition closed_ok (s : sys) : Prop :=
+  forall k c, In (k, c) (senders s) -> closed (chan_at s c) = true ->
+    2 <= c /\ rcv (chan_at s c) = [] /\ (forall r e, lookup (subs s) r = Some e -> e_ch e <> c).
+
+Lemma closed_bury s sid st : closed_ok s -> own_stream s -> lookup (streams s) sid = Some st -> closed_ok (bury s sid st).
+Proof.
+  intros Hc Hos Hl k c Hin Hcl. destruct (Hos _ _ Hl) as (Hlt & (p & Hp) & _).
+  change (senders (bury s sid st)) with (senders s) in Hin. change (subs (bury s sid st)) with (subs s).
+  autorewrite with chat in *. destruct (Nat.eq_dec c (s_ch st)) as [->|Hne].
+  - rewrite chan_at_set_same in * by assumption. rewrite closed_drop in Hcl. destruct (Hc _ _ Hin Hcl) as (_ & Hr & _).
+    exfalso. eapply cursor_some_rcv; eassumption.
+  - rewrite chan_at_set_other in * by assumption. exact (Hc _ _ Hin Hcl).
+Qed.
+
+(* a channel whose receivers or capacity change, but not its closed flag *)
+Lemma closed_upd s c x : closed_ok s -> c < length (chans s) -> closed x = closed (chan_at s c) ->
+  (closed (chan_at s c) = true -> forall k, In (k, c) (senders s) -> False) ->
+  forall s', chans s' = upd (chans s) c x -> senders s' = senders s -> (forall r e', lookup (subs s') r = Some e' -> exists e, lookup (subs s) r = Some e /\ e_ch e' = e_ch e) ->
+  closed_ok s'.
+Proof.
+  intros Hc Hlt Hx Hno s' Ech Esnd Esub k c0 Hin Hcl. rewrite Esnd in Hin.
+  assert (Hat : chan_at s' c0 = if Nat.eqb c0 c then x else chan_at s c0).
+  { unfold chan_at. rewrite Ech. destruct (Nat.eqb c0 c) eqn:E; [apply Nat.eqb_eq in E; subst; now apply nth_upd_same | apply Nat.eqb_neq in E; now apply nth_upd_other]. }
+  rewrite Hat in *. destruct (Nat.eqb c0 c) eqn:E.
+  - apply Nat.eqb_eq in E. subst c0. rewrite Hx in Hcl. destruct (Hno Hcl _ Hin).
+  - destruct (Hc _ _ Hin Hcl) as (H2 & Hr & He). split; [assumption|]. split; [assumption|]. intros r e' He'. destruct (Esub _ _ He') as (e & He0 & Hch). rewrite Hch. eauto.
+Qed.
+
+Lemma closed_same s s' : closed_ok s -> chans s' = chans s -> senders s' = senders s ->
+  (forall r e', lookup (subs s') r = Some e' -> exists e, lookup (subs s) r = Some e /\ e_ch e' = e_ch e) -> closed_ok s'.
+Proof.
+  intros Hc Ech Esnd Esub k c Hin Hcl. rewrite Esnd in Hin. unfold chan_at in *. rewrite Ech in *.
+  destruct (Hc _ _ Hin Hcl) as (H2 & Hr & He). split; [assumption|]. split; [assumption|]. intros r e' He'.
+  destruct (Esub _ _ He') as (e & He0 & Hch). rewrite Hch. eauto.
+Qed.
+
+Lemma chan_of_key_in l k c : chan_of_key l k = Some c -> In (k, c) l.
+Proof.
+  unfold chan_of_key. destruct (find (fun p => key_eqb (fst p) k) l) as [[k' c']|] eqn:E; [|discriminate]. cbn. intros H; inversion H; subst.
+  apply find_some in E. destruct E as [Hin Hk]. cbn in Hk. apply key_eqb_eq in Hk. now subst.
+Qed.
 
 Section G2.
 Variable matches : nat -> msg -> bool.
@@ -363,16 +406,206 @@ Proof.
     pose proof (fun c0 => rm_apply_chan _ _ _ _ c0 H3) as Hch. apply rm_apply_spec, rm_spec_tables in H3. destruct H3 as (_ & _ & _ & _ & _ & Hl & _).
     apply Hsoc; [exact Hl | exact Hch | exact Estr | exact Eadd].
   - (* async drop, sender *)
-    assert (O1 : own_cur (rm_sender s r c) /\ own_stream (rm_sender s r c)).
-    { apply Hsoc; try reflexivity; [unfold rm_sender; now rewrite chans_set_chan, length_upd | intros c0; apply rm_sender_chan]. }
-    exact (own_bury (rm_sender s r c) sid st O1 H).
+    assert (O1 : own_cur (rm_sender s r) /\ own_stream (rm_sender s r)).
+    { apply Hsoc; [apply length_chans_rm | intros c0; apply rm_sender_chan | apply streams_rm | apply adds_rm]. }
+    assert (Hl1 : lookup (streams (rm_sender s r)) sid = Some st) by now rewrite streams_rm.
+    exact (own_bury (rm_sender s r) sid st O1 Hl1).
   - pose proof (rm_apply_frame _ _ _ _ H1) as (_ & Estr & Eadd & _).
     pose proof (fun c0 => rm_apply_chan _ _ _ _ c0 H1) as Hch. apply rm_apply_spec, rm_spec_tables in H1. destruct H1 as (_ & _ & _ & _ & _ & Hl & _).
     apply Hsoc; [exact Hl | exact Hch | exact Estr | exact Eadd].
   - pose proof (rm_apply_frame _ _ _ _ H1) as (_ & Estr & Eadd & _).
     pose proof (fun c0 => rm_apply_chan _ _ _ _ c0 H1) as Hch. apply rm_apply_spec, rm_spec_tables in H1. destruct H1 as (_ & _ & _ & _ & _ & Hl & _).
     apply Hsoc; [exact Hl | exact Hch | exact Estr | exact Eadd].
-  - apply Hsoc; tsimp; try reflexivity; [unfold rm_sender; now rewrite chans_set_chan, length_upd | intros c0; apply rm_sender_chan].
+  - apply Hsoc; tsimp; [apply length_chans_rm | intros c0; autorewrite with chat; apply rm_sender_chan | apply streams_rm | apply adds_rm].
+Qed.
+
+(* ---- a call in A2: its channel is fresh, unregistered, empty, open, and only it has a receiver there ---- *)
+Definition a2_facts (s : sys) (sid r c : nat) : Prop :=
+  (exists e, lookup (subs s) r = Some e /\ e_ch e = c) /\ (forall k, ~ In (k, c) (senders s)) /\
+  log (chan_at s c) = [] /\ closed (chan_at s c) = false /\ cursor (chan_at s c) sid = Some 0 /\
+  2 <= c < length (chans s) /\ (forall sid' st, lookup (streams s) sid' = Some st -> s_ch st <> c).
+
+Lemma g_a2_step s l s' : tstep s l s' -> Inv s -> forall sid r c, a2 s' sid r c -> a2_facts s' sid r c.
+Proof.
+  intros Hs I sid0 r0 c0 Ha'. pose proof (len_mono _ _ _ _ Hs) as Hmono.
+  (* the call was already in A2 before the step, unless this step is its own LAddSubs *)
+  assert (Hbusy : forall sid r c, a2 s sid r c -> subs_busy s = false -> False) by (intros sid r c Ha Hb; exact (not_busy_a2 s sid r c Hb Ha)).
+  destruct Hs.
+  - (* arrive *) exact (inv_a2 _ _ I _ _ _ Ha').
+  - exact (inv_a2 _ _ I _ _ _ Ha').
+  - exact (inv_a2 _ _ I _ _ _ Ha').
+  - exact (inv_a2 _ _ I _ _ _ Ha').
+  - (* push: not to an unregistered channel *)
+    assert (Ha : a2 s sid0 r0 c0) by exact Ha'. destruct (inv_a2 _ _ I _ _ _ Ha) as (F1 & F2 & F3 & F4 & F5 & F6 & F7).
+    destruct (inv_todo _ _ I _ _ H) as [Htd _]. destruct (Htd c (or_introl eq_refl)) as (k & Hk & _).
+    assert (Hne : c0 <> c) by (intros ->; exact (F2 _ Hk)).
+    unfold a2_facts. tsimp. autorewrite with chat. rewrite chans_set_chan, length_upd, chan_at_set_other by assumption. repeat split; try assumption; lia.
+  - exact (inv_a2 _ _ I _ _ _ Ha').
+  - exact (inv_a2 _ _ I _ _ _ Ha').
+  - (* next, failure: only registered channels are closed *)
+    assert (Ha : a2 s sid0 r0 c0) by exact Ha'. destruct (inv_a2 _ _ I _ _ _ Ha) as (F1 & F2 & F3 & F4 & F5 & F6 & F7).
+    unfold a2_facts. tsimp. autorewrite with chat. rewrite length_close_all. destruct F6 as [F6a F6b]. rewrite chan_at_close_all by assumption.
+    assert (Hm : mem_nat c0 (map snd (senders s)) = false).
+    { destruct (mem_nat c0 (map snd (senders s))) eqn:E; [|reflexivity]. apply mem_nat_in, in_map_iff in E. destruct E as ([k c1] & E1 & E2).
+      cbn in E1. subst c1. destruct (F2 _ E2). }
+    rewrite Hm. repeat split; try assumption. intros k [].
+  - (* add start *)
+    assert (Ha : a2 s sid0 r0 c0) by (eapply a2_put_other with (3 := Ha'); [reflexivity | intros c1; discriminate]).
+    destruct (inv_a2 _ _ I _ _ _ Ha) as (F1 & F2 & F3 & F4 & F5 & F6 & F7). unfold a2_facts. tsimp. autorewrite with chat. repeat split; try assumption; lia.
+  - assert (Ha : a2 s sid0 r0 c0) by (match type of Ha' with a2 ?s1 _ _ _ => apply (a2_del s s1 sid sid0 r0 c0 eq_refl) in Ha' end; apply Ha').
+    destruct (inv_a2 _ _ I _ _ _ Ha) as (F1 & F2 & F3 & F4 & F5 & F6 & F7). unfold a2_facts. tsimp. autorewrite with chat. repeat split; try assumption; lia.
+  - assert (Ha : a2 s sid0 r0 c0) by (eapply a2_put_other with (3 := Ha'); [reflexivity | intros c1; cbn; discriminate]).
+    destruct (inv_a2 _ _ I _ _ _ Ha) as (F1 & F2 & F3 & F4 & F5 & F6 & F7). unfold a2_facts. tsimp. autorewrite with chat. repeat split; try assumption; lia.
+  - (* occupied: needs `subscriptions` *) exfalso. match type of Ha' with a2 ?s1 _ _ _ => apply (a2_del s s1 sid sid0 r0 c0 eq_refl) in Ha' end. destruct Ha' as [Ha' _]. eapply Hbusy; eassumption.
+  - (* vacant: this is the call *)
+    subst c capacity s1 s2. destruct Ha' as (a' & Ha' & Hr' & Hpc'). tsimp. destruct (Nat.eq_dec sid0 sid) as [->|Hne].
+    + rewrite lookup_put_same in Ha'. inversion Ha'; subst a'. cbn in Hr', Hpc'. inversion Hpc'; subst c0. subst r0.
+      unfold a2_facts. tsimp. autorewrite with chat. rewrite chan_at_app_new, app_length. cbn [length]. pose proof (inv_len _ _ I).
+      repeat split; try lia.
+      * eexists. rewrite lookup_put_same. split; reflexivity.
+      * intros k Hk. destruct (inv_shape _ _ I _ _ Hk). lia.
+      * unfold cursor, subscribe, with_rcv, new_chan. cbn. now rewrite Nat.eqb_refl.
+      * intros sid' st Hst. destruct (inv_stream _ _ I _ _ Hst). lia.
+    + rewrite lookup_put_other in Ha' by assumption. exfalso. eapply Hbusy; [exists a'; eauto | assumption].
+  - (* add sender: it is the only call in A2 and it is over *)
+    exfalso. match type of Ha' with a2 ?s1 _ _ _ => apply (a2_del s s1 sid sid0 r0 c0 eq_refl) in Ha' end. destruct Ha' as [Ha' Hne]. apply Hne. eapply (inv_a2_uniq _ _ I); [exact Ha' | exists a; eauto].
+  - (* unfiltered *)
+    assert (Ha : a2 s sid0 r0 c0) by exact Ha'. destruct (inv_a2 _ _ I _ _ _ Ha) as (F1 & F2 & F3 & F4 & F5 & F6 & F7).
+    unfold a2_facts. tsimp. autorewrite with chat. rewrite chans_set_chan, length_upd. rewrite chan_at_set_other by lia. repeat split; try assumption; try lia.
+    intros sid' st Hst. destruct (Nat.eq_dec sid' sid) as [->|Hne]; [rewrite lookup_put_same in Hst; inversion Hst; subst; cbn; lia|].
+    rewrite lookup_put_other in Hst by assumption. eauto.
+  - (* poll *)
+    assert (Ha : a2 s sid0 r0 c0) by exact Ha'. destruct (inv_a2 _ _ I _ _ _ Ha) as (F1 & F2 & F3 & F4 & F5 & F6 & F7). destruct H as [Hl Hd].
+    unfold a2_facts. tsimp. autorewrite with chat. rewrite chans_set_chan, length_upd. rewrite chan_at_set_other by (apply not_eq_sym; eauto).
+    repeat split; try assumption; try lia.
+    intros sid' st' Hst. destruct (Nat.eq_dec sid' sid) as [->|Hne]; [rewrite lookup_put_same in Hst; inversion Hst; subst; cbn; eauto|].
+    rewrite lookup_put_other in Hst by assumption. eauto.
+  - exact (inv_a2 _ _ I _ _ _ Ha').
+  - (* drop *)
+    assert (Ha : a2 s sid0 r0 c0) by exact Ha'. destruct (inv_a2 _ _ I _ _ _ Ha) as (F1 & F2 & F3 & F4 & F5 & F6 & F7). destruct H as [Hl Hd].
+    unfold a2_facts. tsimp. autorewrite with chat. rewrite chans_bury, streams_bury, length_upd. rewrite chan_at_set_other by (apply not_eq_sym; eauto).
+    repeat split; try assumption; try lia. intros sid' st' Hst. apply in_del_lookup in Hst. eauto.
+  - assert (Ha : a2 s sid0 r0 c0) by exact Ha'. destruct (inv_a2 _ _ I _ _ _ Ha) as (F1 & F2 & F3 & F4 & F5 & F6 & F7). destruct H as [Hl Hd].
+    unfold a2_facts. tsimp. autorewrite with chat. rewrite chans_bury, streams_bury, length_upd. rewrite chan_at_set_other by (apply not_eq_sym; eauto).
+    repeat split; try assumption; try lia. intros sid' st' Hst. apply in_del_lookup in Hst. eauto.
+  - (* clone *)
+    assert (Ha : a2 s sid0 r0 c0) by exact Ha'. destruct (inv_a2 _ _ I _ _ _ Ha) as (F1 & F2 & F3 & F4 & F5 & F6 & F7). destruct H as [Hl Hd].
+    unfold a2_facts. tsimp. autorewrite with chat. rewrite chans_set_chan, length_upd. rewrite chan_at_set_other by (apply not_eq_sym; eauto).
+    repeat split; try assumption; try lia.
+    intros sid' st' Hst. destruct (Nat.eq_dec sid' sid2) as [->|Hne]; [rewrite lookup_put_same in Hst; inversion Hst; subst; eauto|].
+    rewrite lookup_put_other in Hst by assumption. eauto.
+  - (* set capacity *)
+    assert (Ha : a2 s sid0 r0 c0) by exact Ha'. destruct (inv_a2 _ _ I _ _ _ Ha) as (F1 & F2 & F3 & F4 & F5 & F6 & F7). destruct H as [Hl Hd].
+    unfold a2_facts. tsimp. autorewrite with chat. rewrite chans_set_chan, length_upd. rewrite chan_at_set_other by (apply not_eq_sym; eauto).
+    repeat split; try assumption; lia.
+  - exact (inv_a2 _ _ I _ _ _ Ha').
+  - (* async drop of an unfiltered stream *)
+    assert (Ha : a2 s sid0 r0 c0) by exact Ha'. destruct (inv_a2 _ _ I _ _ _ Ha) as (F1 & F2 & F3 & F4 & F5 & F6 & F7). destruct H as [Hl Hd].
+    unfold a2_facts. tsimp. autorewrite with chat. rewrite chans_bury, streams_bury, length_upd. rewrite chan_at_set_other by (apply not_eq_sym; eauto).
+    repeat split; try assumption; try lia. intros sid' st' Hst. apply in_del_lookup in Hst. eauto.
+  - (* the remaining steps need `subscriptions`, or are made by somebody who holds it *)
+    exfalso. pose proof (rm_apply_frame _ _ _ _ H3) as (_ & _ & Eadd & _). eapply (Hbusy sid0 r0 c0); [|assumption]. eapply a2_ext; [|exact Ha']. tsimp. rewrite adds_bury. exact Eadd.
+  - exfalso. pose proof (rm_apply_frame _ _ _ _ H3) as (_ & _ & Eadd & _). eapply (Hbusy sid0 r0 c0); [|assumption]. eapply a2_ext; [|exact Ha']. tsimp. exact Eadd.
+  - exfalso. eapply (inv_excl _ _ I sid0 r0 c0 r c); [eapply a2_ext; [|exact Ha']; tsimp; rewrite adds_bury; apply adds_rm|]. left. exists sid, st. tauto.
+  - exfalso. pose proof (rm_apply_frame _ _ _ _ H1) as (_ & _ & Eadd & _). eapply (Hbusy sid0 r0 c0); [|assumption]. eapply a2_ext; [|exact Ha']. tsimp. exact Eadd.
+  - exfalso. pose proof (rm_apply_frame _ _ _ _ H1) as (_ & _ & Eadd & _). eapply (Hbusy sid0 r0 c0); [|assumption]. eapply a2_ext; [|exact Ha']. tsimp. exact Eadd.
+  - exfalso. eapply (inv_excl _ _ I sid0 r0 c0 r c); [eapply a2_ext; [|exact Ha']; tsimp; apply adds_rm|]. right. eapply nth_error_In; eassumption.
+Qed.
+
+Lemma closed_rm_apply s r s1 o : Inv s -> rm_apply s r = (s1, o) -> closed_ok s1.
+Proof.
+  intros I H. pose proof (inv_closed _ _ I) as Hold. apply rm_apply_spec in H. destruct H.
+  - exact Hold.
+  - eapply closed_same; [exact Hold | reflexivity | reflexivity|]. intros r' e' He'. cbn [subs with_subs] in He'.
+    destruct (Nat.eq_dec r' r) as [->|Hne]; [rewrite lookup_put_same in He'; inversion He'; subst; eauto | rewrite lookup_put_other in He' by assumption; eauto].
+  - eapply closed_same; [exact Hold | reflexivity | reflexivity|]. intros r' e' He'. cbn [subs with_subs] in He'. apply in_del_lookup in He'. eauto.
+  - (* the entry's channel has no receiver left: it closes *)
+    destruct (inv_entry _ _ I _ _ H) as [He2 Helt]. intros k c Hin Hcl. cbn [senders set_chan with_chans with_subs] in Hin.
+    cbn [subs set_chan with_chans with_subs]. destruct (Nat.eq_dec c (e_ch e)) as [->|Hne].
+    + rewrite chan_at_set_same by assumption. split; [assumption|]. split; [now rewrite rcv_close|].
+      intros r' e' He'. destruct (Nat.eq_dec r' r) as [->|Hne']; [now rewrite lookup_del_same in He'|]. rewrite lookup_del_other in He' by assumption.
+      intros E. apply Hne'. eapply (inv_entry_inj _ _ I); eassumption.
+    + rewrite chan_at_set_other in * by assumption. destruct (Hold _ _ Hin Hcl) as (H2' & Hr & He'). split; [assumption|]. split; [assumption|].
+      intros r' e' Hl'. apply in_del_lookup in Hl'. eauto.
+Qed.
+
+Lemma closed_rm_sender s r : Inv s -> closed_ok (rm_sender s r).
+Proof.
+  intros I k c Hin Hcl. pose proof (inv_closed _ _ I) as Hold. rewrite senders_rm in Hin. rewrite subs_rm. apply in_del_key in Hin. destruct Hin as [Hin Hk].
+  cbn in Hk. unfold rm_sender in Hcl |- *. destruct (chan_of_key (senders s) (KRule r)) as [c0|] eqn:E.
+  - apply chan_of_key_in in E. assert (Hne : c <> c0).
+    { intros ->. destruct (inv_shape _ _ I _ _ E) as [_ S0]. destruct (inv_shape _ _ I _ _ Hin) as [_ S1].
+      destruct k; try lia. apply Hk. f_equal. eapply (inv_inj _ _ I); eassumption. }
+    autorewrite with chat in *. rewrite chan_at_set_other in * by assumption. exact (Hold _ _ Hin Hcl).
+  - autorewrite with chat in *. exact (Hold _ _ Hin Hcl).
+Qed.
+
+Lemma g_closed_step s l s' : tstep s l s' -> Inv s -> closed_ok s'.
+Proof.
+  intros Hs I. pose proof (inv_closed _ _ I) as Hold. pose proof (Inv_own _ I) as [Icur Istr].
+  assert (Hnorcv : forall sid st, lookup (streams s) sid = Some st -> closed (chan_at s (s_ch st)) = true -> forall k, In (k, s_ch st) (senders s) -> False).
+  { intros sid st Hl Hcl k Hin. destruct (Hold _ _ Hin Hcl) as (_ & Hr & _). destruct (Istr _ _ Hl) as (_ & (p & Hp) & _). eapply cursor_some_rcv; eassumption. }
+  assert (Hsubs_same : forall r e', lookup (subs s) r = Some e' -> exists e, lookup (subs s) r = Some e /\ e_ch e' = e_ch e) by eauto.
+  destruct Hs.
+  1-4: exact Hold.
+  - (* push *) apply try_push_pushed in H0. destruct H0 as (_ & _ & _ & Hc1 & Hc2). destruct (inv_todo _ _ I _ _ H) as [Htd _].
+    destruct (Htd c (or_introl eq_refl)) as (k0 & Hk0 & _). destruct (inv_shape _ _ I _ _ Hk0) as [Hlt _].
+    assert (Hcx : closed ch' = closed (chan_at s c)) by congruence.
+    assert (Hno : closed (chan_at s c) = true -> forall k, In (k, c) (senders s) -> False) by (intros E; congruence).
+    apply (closed_upd s c ch' Hold Hlt Hcx Hno); [reflexivity | reflexivity | exact Hsubs_same].
+  - exact Hold.
+  - exact Hold.
+  - (* next, failure *) intros k c0 [].
+  - exact Hold.
+  - exact Hold.
+  - exact Hold.
+  - (* occupied *) subst c ch1 s1 s2. destruct (inv_entry _ _ I _ _ H2) as [_ Hlt].
+    set (x := subscribe sid match a_q a with Some n => grow n (chan_at s (e_ch e)) | None => chan_at s (e_ch e) end).
+    assert (Hcx : closed x = closed (chan_at s (e_ch e))) by (unfold x; destruct (a_q a); reflexivity).
+    assert (Hno : closed (chan_at s (e_ch e)) = true -> forall k, In (k, e_ch e) (senders s) -> False).
+    { intros Hcl k Hin. destruct (Hold _ _ Hin Hcl) as (_ & _ & He). exact (He _ _ H2 eq_refl). }
+    apply (closed_upd s (e_ch e) x Hold Hlt Hcx Hno); [reflexivity | reflexivity |].
+    intros r' e' He'. tsimp. destruct (Nat.eq_dec r' (a_rule a)) as [->|Hne]; [rewrite lookup_put_same in He'; inversion He'; subst; eauto | rewrite lookup_put_other in He' by assumption; eauto].
+  - (* vacant *) subst c capacity s1 s2. intros k c Hin Hcl. tsimp. destruct (inv_shape _ _ I _ _ Hin) as [Hlt _].
+    autorewrite with chat in *. rewrite chan_at_app_old in * by assumption. destruct (Hold _ _ Hin Hcl) as (H2' & Hr & He). split; [assumption|]. split; [assumption|].
+    intros r' e' He'. destruct (Nat.eq_dec r' (a_rule a)) as [->|Hne].
+    + rewrite lookup_put_same in He'. inversion He'; subst. cbn. lia.
+    + rewrite lookup_put_other in He' by assumption. eauto.
+  - (* add sender *) intros k c0 Hin Hcl. tsimp. autorewrite with chat in *. apply in_app_iff in Hin. destruct Hin as [Hin|[Hin|[]]].
+    + exact (Hold _ _ Hin Hcl).
+    + inversion Hin; subst. destruct (inv_a2 _ _ I sid (a_rule a) c0) as (_ & _ & _ & Hop & _); [exists a; tauto | congruence].
+  - (* unfiltered *) assert (Hlt : 0 < length (chans s)) by (pose proof (inv_len _ _ I); lia).
+    assert (Hno : closed (chan_at s 0) = true -> forall k, In (k, 0) (senders s) -> False) by (intros Hcl k Hin; destruct (Hold _ _ Hin Hcl); lia).
+    apply (closed_upd s 0 (subscribe sid (chan_at s 0)) Hold Hlt eq_refl Hno); [reflexivity | reflexivity | exact Hsubs_same].
+  - (* poll *) destruct H as [Hl Hd]. apply try_recv_got in H0. destruct H0 as (p0 & _ & _ & _ & Hcl0 & _). destruct (Istr _ _ Hl) as (Hlt & _).
+    apply (closed_upd s (s_ch st) ch' Hold Hlt Hcl0 (Hnorcv _ _ Hl)); [reflexivity | reflexivity | exact Hsubs_same].
+  - exact Hold.
+  - (* drop *) destruct H as [Hl Hd]. exact (closed_bury s sid st Hold Istr Hl).
+  - destruct H as [Hl Hd]. exact (closed_bury s sid st Hold Istr Hl).
+  - (* clone *) destruct H as [Hl Hd]. destruct (Istr _ _ Hl) as (Hlt & _).
+    apply (closed_upd s (s_ch st) (clone_rcv sid sid2 (chan_at s (s_ch st))) Hold Hlt (closed_clone _ _ _ _) (Hnorcv _ _ Hl)); [reflexivity | reflexivity | exact Hsubs_same].
+  - (* set capacity *) destruct H as [Hl Hd]. destruct (Istr _ _ Hl) as (Hlt & _).
+    apply (closed_upd s (s_ch st) (grow n (chan_at s (s_ch st))) Hold Hlt eq_refl (Hnorcv _ _ Hl)); [reflexivity | reflexivity | exact Hsubs_same].
+  - exact Hold.
+  - destruct H as [Hl Hd]. exact (closed_bury s sid st Hold Istr Hl).
+  - (* async drop, subs, done *)
+    pose proof (closed_rm_apply _ _ _ _ I H3) as Hc1. pose proof (rm_apply_frame _ _ _ _ H3) as (_ & Estr & Eadd & _).
+    assert (O1 : own_cur s1 /\ own_stream s1).
+    { pose proof (fun c0 => rm_apply_chan _ _ _ _ c0 H3) as Hch. apply rm_apply_spec, rm_spec_tables in H3. destruct H3 as (_ & _ & _ & _ & _ & Hl0 & _).
+      apply (own_frame s); [split; assumption | exact Hl0 | | exact Estr | now apply a2_same_adds].
+      intros c0 id _. rewrite (soc_cursor _ _ id (Hch c0)), (soc_tail _ _ (Hch c0)). split; [reflexivity | lia]. }
+    assert (Hl1 : lookup (streams s1) sid = Some st) by now rewrite Estr.
+    exact (closed_bury s1 sid st Hc1 (proj2 O1) Hl1).
+  - exact (closed_rm_apply _ _ _ _ I H3).
+  - (* async drop, sender *)
+    assert (O1 : own_stream (rm_sender s r)).
+    { apply (own_frame s); [split; assumption | apply length_chans_rm | | apply streams_rm | apply a2_same_adds, adds_rm].
+      intros c0 id _. rewrite (soc_cursor _ _ id (rm_sender_chan s r c0)), (soc_tail _ _ (rm_sender_chan s r c0)). split; [reflexivity | lia]. }
+    assert (Hl1 : lookup (streams (rm_sender s r)) sid = Some st) by now rewrite streams_rm.
+    exact (closed_bury _ sid st (closed_rm_sender s r I) O1 Hl1).
+  - exact (closed_rm_apply _ _ _ _ I H1).
+  - exact (closed_rm_apply _ _ _ _ I H1).
+  - exact (closed_rm_sender s r I).
 Qed.
 
 End G2.
